@@ -7,7 +7,7 @@ import ast
 import copy
 from typing import Callable, Optional
 
-from .flow import RAISE, attr_chain, paths, subst
+from .flow import dump, RAISE, attr_chain, paths, subst
 from .repo import ClassInfo, FuncInfo, Repo
 
 MAX_DEPTH = 3
@@ -48,6 +48,10 @@ class _Inline(ast.NodeTransformer):
     def __init__(self, repo: Repo, ci: ClassInfo, domain_cls: Optional[ClassInfo], depth: int, accept: Callable[[FuncInfo], bool]):
         self.repo, self.ci, self.dci, self.depth, self.accept = repo, ci, domain_cls, depth, accept
 
+    def _class_by_name(self, name):
+        hits = [c for m in self.repo.modules.values() for c in m.classes.values() if c.name == name]
+        return hits[0] if len(hits) == 1 else None
+
     def visit_Subscript(self, node):
         node = self.generic_visit(node)
         if getattr(node, "_tuple_elt", False) and isinstance(node.value, ast.Tuple) and isinstance(node.slice, ast.Constant):
@@ -71,6 +75,11 @@ class _Inline(ast.NodeTransformer):
             tci = self.ci
         elif recv == "self.domain" and self.dci is not None:
             tci = self.dci
+        elif recv and "." not in recv and node.args and dump(node.args[0]) == "self" and self._class_by_name(recv) is not None:
+            # explicit-class call of a helper on this object: OtherClass._helper(self, a, b)
+            tci = self._class_by_name(recv)
+            node = ast.copy_location(ast.Call(func=ast.Attribute(value=ast.Name(id="self", ctx=ast.Load()), attr=node.func.attr, ctx=ast.Load()), args=list(node.args[1:]), keywords=list(node.keywords)), node)
+            recv = "self"
         else:
             return node
         target = self.repo.resolve_method(tci, node.func.attr)
